@@ -22,10 +22,37 @@ def load_known(pid=None):
     return [k for k in ks if pid is None or k["prop"] == pid]
 
 
+_CACHE_DIR = None
+
+
+def numba_cache_dir():
+    """numba does not invalidate a cached function when a function it CALLS (from another file) changes: the cache
+    directory is therefore keyed by the content of all of /repo's nucs sources; older directories are removed"""
+    global _CACHE_DIR
+    if _CACHE_DIR is None:
+        h = hashlib.sha1()
+        for root, _, files in sorted(os.walk(os.path.join(REPO, "nucs"))):
+            for f in sorted(files):
+                if f.endswith(".py"):
+                    p = os.path.join(root, f)
+                    h.update(p.encode())
+                    h.update(open(p, "rb").read())
+        base = os.path.join(VERIF, ".cache")
+        os.makedirs(base, exist_ok=True)
+        name = "numba-" + h.hexdigest()[:16]
+        for d in os.listdir(base):
+            if d.startswith("numba") and d != name:
+                import shutil
+
+                shutil.rmtree(os.path.join(base, d), ignore_errors=True)
+        _CACHE_DIR = os.path.join(base, name)
+    return _CACHE_DIR
+
+
 def real_env(jit):
     env = dict(os.environ)
     env["NUSYM_REPO"] = REPO
-    env["NUMBA_CACHE_DIR"] = os.path.join(VERIF, ".cache", "numba")
+    env["NUMBA_CACHE_DIR"] = numba_cache_dir()
     env["PYTHONDONTWRITEBYTECODE"] = "1"
     env.pop("PYTHONPATH", None)
     if jit:
@@ -117,7 +144,7 @@ class Check:
                     break
         return ok_any, path, " | ".join(infos)
 
-    def finish(self, validate_batches=None):
+    def finish(self, validate_batches=None, both_modes=False):
         from . import core
 
         lines = []
@@ -127,7 +154,7 @@ class Check:
         for tag, batch in (validate_batches or {}).items():
             if not batch:
                 continue
-            for jit in ([False] if self.tier == "quick" else [False, True]):
+            for jit in ([False] if (self.tier == "quick" and not both_modes) else [False, True]):
                 try:
                     rc, out = run_validate(batch, jit, self.scratch, f"{self.pid}-{tag}-{int(jit)}")
                 except subprocess.TimeoutExpired:
